@@ -72,6 +72,7 @@ pub open spec fn header_push(o: Seq<Op>, p: PreflateParameters) -> Seq<Op> {
     policy_push(o3, t.add_policy)
 }
 
+#[verifier::rlimit(60)]
 pub proof fn lemma_header_push(o: Seq<Op>, p: PreflateParameters)
     ensures header_push(o, p) == o + header_ops(p), 15 <= header_ops(p).len() <= 19,
 {
